@@ -663,10 +663,12 @@ func (self *Core) runInstruction(instruction compiler.Instruction) *value.VmInte
 
 		v := *self.pop()
 		field, found := v.(value.ValueAnyObject).FieldsInternal[i.Value]
+		// Exactly one value is pushed: `none` if there is no such field
 		if !found {
 			self.push(value.NewNoneOption())
+		} else {
+			self.push(value.NewValueOption(field))
 		}
-		self.push(value.NewValueOption(field))
 	case compiler.Opcode_Member_Unwrap:
 		val := self.pop()
 		inner := (*val).(value.ValueOption).Inner
